@@ -158,6 +158,15 @@ func (r *SeqRun) applyWrite(op *Op) (touched []string, v *Violation) {
 		if ds == nil {
 			return nil, viol(prop, "harness", "invalid", "dataset %s does not exist", op.DS)
 		}
+		if op.M != nil && op.M["invalid"] == true {
+			// the store must refuse the batch as a whole; the model does not change
+			r.Stats["rejected_writes"]++
+			if err := ds.StoreEntities(r.H.Entities(op.Ents)); err == nil {
+				return nil, viol(prop, "write", "invalid-batch-accepted", "StoreEntities(%s) accepted a batch with a nil reference", op.DS)
+			}
+			r.ev("batch rejected")
+			return []string{op.DS}, nil
+		}
 		r.noteWrites(op.DS, op.Ents)
 		if err := ds.StoreEntities(r.H.Entities(op.Ents)); err != nil {
 			return nil, viol(prop, "write", "batch-rejected", "StoreEntities(%s) failed: %v", op.DS, err)
@@ -169,6 +178,18 @@ func (r *SeqRun) applyWrite(op *Op) (touched []string, v *Violation) {
 		return []string{op.DS}, nil
 	case "txn":
 		t := &server.Transaction{DatasetEntities: map[string][]*server.Entity{}}
+		if op.M != nil && op.M["invalid"] == true {
+			for _, p := range op.Parts {
+				t.DatasetEntities[p.DS] = r.H.Entities(p.Ents)
+				touched = append(touched, p.DS)
+			}
+			r.Stats["rejected_writes"]++
+			if err := r.H.Store.ExecuteTransaction(t); err == nil {
+				return nil, viol(prop, "write", "invalid-txn-accepted", "ExecuteTransaction accepted a transaction with a nil reference")
+			}
+			r.ev("txn rejected")
+			return touched, nil
+		}
 		for _, p := range op.Parts {
 			r.noteWrites(p.DS, p.Ents)
 			t.DatasetEntities[p.DS] = r.H.Entities(p.Ents)
